@@ -12,7 +12,10 @@ the harness's pool (harness/C19_shared.h: 2 equality functions, 3 to-string func
 and several type names can share some of their functions and differ in others.
 
 Observation = ":c <half> :x <half>": the scenario through the C interface and through the C++ interface.
-half ::= <failures> <op at which the test was left | ~> <failure text | ~> <n> (<op> :<T.field> :<kind> <payload>)^n <k> (<op> <16 bytes>)^k
+half ::= <failures> <runs of the crash hook> <op at which the test was left | ~> <failure text | ~> <n> (<op> :<T.field> :<kind> <payload>)^n <k> (<op> <16 bytes>)^k
+How the test is left: the harness installs a counting crash hook (UtestShell::setCrashMethod); `:S.crashOnFailure <n>` is
+mock_c()->crashOnFailure(n) / mock().crashOnFailure(n != 0); a failure reported through a reporter whose flag is set runs the hook
+(UT_CRASH) before the test is left; both halves must run it equally often.
 """
 import os, re
 from vlib import tz, tb, REPO
@@ -28,8 +31,17 @@ RULE = ("every scenario is executed through mock_c()/mock_scope_c() from a C tra
         "(hasReturnValue, returnValue, typed getter of the right and of a wrong type, ...OrDefault with and without a value) through the "
         "actual-call table and through the support table; (2) data store set/get for every setter, scopes, clear; (3) output parameters "
         "(plain, of type with copier, unmodified), custom comparators, missing comparator/copier; (4) strictOrder, expectNCalls, "
-        "expectNoCall, ignoreOtherCalls, ignoreOtherParameters, enable/disable, expectedCallsLeft, checkExpectations, clear, "
-        "crashOnFailure(0); (5) interleavings of scopes with readers after the support was switched; (6) random op sequences over the "
+        "expectNoCall, ignoreOtherCalls, ignoreOtherParameters, enable/disable, expectedCallsLeft, checkExpectations, clear; "
+        "(4b) HOW THE TEST IS LEFT: crashOnFailure(n) for n in 0, 1, 2, 2^31, 2^32-1 set through the global support or a named scope "
+        "(once, twice with different values, on/off/on, before the expectations, after the actual call exists), then a failure of every "
+        "origin -- raised by the actual call object (unexpected call, unexpected parameter value, call although expectNoCall, missing "
+        "parameter found when the next call or checkExpectations closes the call) or by MockSupport itself at checkExpectations time "
+        "(expected call did not happen, checked through the scope or through the global support; calls out of strict order) or by a "
+        "plain CHECK of the library (getter of the wrong type: no reporter) or none -- in the global support and in named scopes, "
+        "with clear() before / after the flag is set / between two generations of expectations, through the same or another "
+        "support, WITH and WITHOUT selecting the support again after the clear (a C user keeps the table pointer); the full product "
+        "origin x failing scope x flag scope x clear position x re-selection is in every quick run; observed: number of runs of the "
+        "crash hook in each half; (5) interleavings of scopes with readers after the support was switched; (6) random op sequences over the "
         "whole grammar; (7) several custom types (T1, T2, T3) whose comparator / copier functions are drawn from a pool of 2 equality x "
         "3 to-string x 2 copier functions WITH SHARING: every pair of (equality, to-string) assignments for two types (36) in both install "
         "orders, one generic equality with a text per type, one text with an equality per type, the same functions under two names, one "
@@ -42,7 +54,8 @@ ASSUMPTIONS = [
     "LP64; every argument is in range of the C type of its parameter (a C caller cannot pass anything else)",
     "valid scenarios only: the first op selects a support; :E ops only while the expected call returned last is alive (no clear since), "
     ":A ops only while the actual call returned last is alive (no clear since); names and string values are non-NULL (string defaults "
-    "may be NULL); objects are 8 bytes, output values at most 16 bytes; crashOnFailure only with 0; comparator / copier functions are "
+    "may be NULL); objects are 8 bytes, output values at most 16 bytes; the crash hook returns (it counts; the terminator then leaves "
+    "the test), a scope's table/reference is not used after the global clear() deleted the scope; comparator / copier functions are "
     "those of the harness's pool (index in range); "
     "removeAllComparatorsAndCopiers only while no expectation or call holds a custom-type value (the C adaptor objects are owned and "
     "freed by the C layer, the C++ ones by the user)",
@@ -393,6 +406,154 @@ def fam_custom(rng, out, tier):
         out.append(join(ops))
 
 
+# ---- how the test is left: crashOnFailure x origin of the failure x scope x clear
+CRASH_ON = [1, 1, 1, 2, 0x80000000, 0xffffffff]
+CRASH_KINDS = ["unexpected-call", "unexpected-value", "call-of-expectNoCall", "not-happened", "out-of-order", "missing-parameter-at-check",
+               "missing-parameter-at-next-call", "getter-of-wrong-type", "pass"]
+
+
+class Seq:
+    """op list with the selection of the support made explicit: lazy = select only when the support changes (a C user keeps the
+    MockSupport_c* it got; a C++ user keeps the MockSupport&) -- never across the deletion of a scope by the global clear()"""
+    def __init__(self, lazy):
+        self.ops, self.cur, self.lazy = [], "unset", lazy
+
+    def sel(self, sc):
+        if self.cur == "unset" or self.cur != sc or not self.lazy:
+            self.ops.append(M(sc))
+            self.cur = sc
+
+    def S(self, sc, field, *args):
+        self.sel(sc)
+        self.ops.append(op("S", field, *args))
+        if field == "clear" and sc is None and self.cur is not None:
+            self.cur = "unset"
+        return self
+
+    def add(self, *ops):
+        self.ops += list(ops)
+        return self
+
+
+def crash_failure(q, rng, kind, sc, check_sc, late=None):
+    """append expectations + calls that fail in the way `kind` says, inside support sc; checkExpectations through check_sc;
+    late = (scope, value): a crashOnFailure placed after the actual call exists (before the op that fails, where there is room)"""
+    f, g, p = rng.choice(FUNS), b"g9", rng.choice(PARS)
+
+    def late_flag():
+        if late:
+            q.S(late[0], "crashOnFailure", late[1])
+
+    if kind == "unexpected-call":
+        late_flag()
+        q.S(sc, "actualCall", g)
+    elif kind == "unexpected-value":
+        q.S(sc, "expectOneCall", f).add(with_("E", "Int", p, 1))
+        q.S(sc, "actualCall", f)
+        late_flag()
+        if late and late[0] != sc:
+            return q.S(sc, "checkExpectations")      # the call cannot be continued after another support was selected in C++ either: close it
+        q.add(with_("A", "Int", p, 2))
+    elif kind == "call-of-expectNoCall":
+        q.S(sc, "expectNoCall", f)
+        late_flag()
+        q.S(sc, "actualCall", f)
+    elif kind == "not-happened":
+        q.S(sc, "expectOneCall", f)
+        if rng.random() < 0.5:
+            q.add(with_("E", "Int", p, 1))
+        late_flag()
+        q.S(check_sc, "checkExpectations")
+    elif kind == "out-of-order":
+        q.S(sc, "strictOrder")
+        q.S(sc, "expectOneCall", FUNS[0]).S(sc, "expectOneCall", FUNS[1])
+        q.S(sc, "actualCall", FUNS[1]).S(sc, "actualCall", FUNS[0])
+        late_flag()
+        q.S(check_sc, "checkExpectations")
+    elif kind == "missing-parameter-at-check":
+        q.S(sc, "expectOneCall", f).add(with_("E", "Int", p, 1))
+        q.S(sc, "actualCall", f)
+        late_flag()
+        q.S(check_sc, "checkExpectations")
+    elif kind == "missing-parameter-at-next-call":
+        q.S(sc, "expectOneCall", FUNS[0]).add(with_("E", "Int", p, 1))
+        q.S(sc, "expectOneCall", FUNS[1])
+        q.S(sc, "actualCall", FUNS[0])
+        late_flag()
+        q.S(sc, "actualCall", FUNS[1])
+    elif kind == "getter-of-wrong-type":
+        q.S(sc, "expectOneCall", f).add(and_return("Int", 1))
+        q.S(sc, "actualCall", f)
+        if late and late[0] == sc:
+            late_flag()
+        q.add(op("A", "stringReturnValue"))
+    else:
+        q.S(sc, "expectOneCall", f).S(sc, "actualCall", f)
+        late_flag()
+        q.S(check_sc, "checkExpectations")
+    return q
+
+
+def fam_crash(rng, out, tier):
+    # (a) the product, in every run: origin x failing scope x scope the flag is set through x clear x re-selection
+    for kind in CRASH_KINDS:
+        for sc in (None, b"s1"):
+            for fsc in (None, b"s1", b"s2"):
+                for clr in ("none", "global", "scope"):
+                    for lazy in (True, False):
+                        q = Seq(lazy)
+                        q.S(fsc, "crashOnFailure", rng.choice(CRASH_ON))
+                        if clr == "global":
+                            q.S(None, "clear")
+                        elif clr == "scope":
+                            q.S(sc if sc is not None else fsc, "clear")
+                        check_sc = sc if rng.random() < 0.6 else None
+                        crash_failure(q, rng, kind, sc, check_sc)
+                        out.append(join(q.ops))
+    # (b) random: flag sequences (off, on, on/off, on/off/on, through several scopes), clear at several places, a first generation of
+    #     expectations wiped by clear, the flag set after the call exists
+    n = 400 if tier == "quick" else 12000
+    for _ in range(n):
+        q = Seq(rng.random() < 0.6)
+        sc = rng.choice(SCOPES)
+        kind = rng.choice(CRASH_KINDS)
+        if rng.random() < 0.2:
+            q.S(rng.choice(SCOPES), "clear")
+        r = rng.random()
+        if r < 0.45:
+            flags = [rng.choice(CRASH_ON)]
+        elif r < 0.55:
+            flags = [0]
+        elif r < 0.7:
+            flags = [rng.choice(CRASH_ON), 0]
+        elif r < 0.85:
+            flags = [0, rng.choice(CRASH_ON)]
+        elif r < 0.95:
+            flags = [rng.choice(CRASH_ON), 0, rng.choice(CRASH_ON)]
+        else:
+            flags = []
+        late = None
+        if flags and rng.random() < 0.25:
+            late = (rng.choice([sc, sc, rng.choice(SCOPES)]), flags.pop())
+        for v in flags:
+            q.S(rng.choice(SCOPES), "crashOnFailure", v)
+            if rng.random() < 0.15:
+                q.S(rng.choice(SCOPES), "clear")
+        if rng.random() < 0.25:
+            # a first generation of expectations (and a call) that a clear wipes out
+            q.S(sc, "expectOneCall", b"f2").add(with_("E", "Int", b"p0", 7))
+            if rng.random() < 0.5:
+                q.S(sc, "actualCall", b"f2").add(with_("A", "Int", b"p0", 7))
+            q.S(rng.choice([sc, None]), "clear")
+        if rng.random() < 0.15:
+            q.S(rng.choice(SCOPES), rng.choice(["enable", "expectedCallsLeft", "strictOrder"]))
+        check_sc = sc if rng.random() < 0.5 else None
+        crash_failure(q, rng, kind, sc, check_sc, late=late)
+        if rng.random() < 0.3:
+            q.S(None, "checkExpectations")
+        out.append(join(q.ops))
+
+
 def fam_flow(rng, out, tier):
     """order, counts, ignore, enable/disable, scopes interleaved, readers after the support was switched"""
     n = 900 if tier == "quick" else 25000
@@ -403,8 +564,8 @@ def fam_flow(rng, out, tier):
             ops += [M(rng.choice(scs)), op("S", "strictOrder")]
         if rng.random() < 0.2:
             ops += [M(rng.choice(scs)), op("S", "ignoreOtherCalls")]
-        if rng.random() < 0.1:
-            ops += [M(None), op("S", "crashOnFailure", 0)]
+        if rng.random() < 0.2:
+            ops += [M(rng.choice(scs)), op("S", "crashOnFailure", rng.choice([0, 0, 1, 1, 0xffffffff]))]
         exps = []
         for _k in range(rng.randrange(1, 5)):
             sc = rng.choice(scs)
@@ -521,6 +682,7 @@ def generate(tier, rng):
     fam_data(rng, out, tier)
     fam_outputs(rng, out, tier)
     fam_custom(rng, out, tier)
+    fam_crash(rng, out, tier)
     fam_flow(rng, out, tier)
     _count_fields(out)
     return out
@@ -574,6 +736,21 @@ def classify(s):
         labs.append("type-installed-twice")
     if ":S.removeAllComparatorsAndCopiers" in heads and any(h.startswith(":S.install") for h in heads[heads.index(":S.removeAllComparatorsAndCopiers"):]):
         labs.append("install-after-removeAll")
+    cr = [o for o in ops if o[0] == ":S.crashOnFailure" and len(o) == 2]
+    if cr:
+        labs.append("crashOnFailure")
+        if any(o[1] != "0" for o in cr):
+            labs.append("crashOnFailure-armed")
+            on = [i for i, o in enumerate(ops) if o[0] == ":S.crashOnFailure" and o[1] != "0"][0]
+            if ":S.clear" in heads[on:]:
+                labs.append("clear-after-crashOnFailure")
+            if ":S.checkExpectations" in heads[on:]:
+                labs.append("crashOnFailure-then-checkExpectations")
+            j = heads.index(":S.clear", on) if ":S.clear" in heads[on:] else -1
+            if 0 <= j < len(heads) - 1 and heads[j + 1] != ":M":
+                labs.append("no-reselection-after-clear")
+        if any(o[0] == ":M" and o[1] != "~" for o in ops):
+            labs.append("crashOnFailure-with-scopes")
     if any(h.startswith(":S.") and ("ReturnValue" in h or "OrDefault" in h or h == ":S.returnValue") for h in heads):
         labs.append("reader-via-support-table")
     if any(h.startswith(":A.") and ("ReturnValue" in h or "OrDefault" in h or h == ":A.returnValue") for h in heads):
@@ -597,15 +774,11 @@ def signature(s, o):
     if c[:1] != x[:1]:
         return "verdict"
     if c[1:2] != x[1:2]:
-        return "failing-op"
+        return "crash-hook"
     if c[2:3] != x[2:3]:
+        return "failing-op"
+    if c[3:4] != x[3:4]:
         return "failure-text"
-    for a, b in zip(c[3:], x[3:]):
-        if a != b:
-            break
-    fields = [w for w in c if w.startswith(":S.") or w.startswith(":A.")]
-    fx = [w for w in x if w.startswith(":S.") or w.startswith(":A.")]
-    k = 0
     cv, xv = _vals(c), _vals(x)
     for a, b in zip(cv, xv):
         if a != b:
@@ -618,8 +791,8 @@ def signature(s, o):
 def _vals(h):
     """[(op, field, kind, payload)] of one half"""
     try:
-        n = int(h[3], 16)
-        return [tuple(h[4 + 4 * i: 8 + 4 * i]) for i in range(n)]
+        n = int(h[4], 16)
+        return [tuple(h[5 + 4 * i: 9 + 4 * i]) for i in range(n)]
     except Exception:
         return []
 
@@ -731,15 +904,25 @@ LEVEL_TEXT = ("Machine-checked (Coq) theorems over a wiring model REGENERATED FR
               "machinery), including which equality / to-string / copy functions the comparator or copier object installed for a type name "
               "runs: installComparator_c / installCopier_c create a fresh adaptor node per call, so the object handed to C++ carries exactly "
               "the functions of that call whatever nodes exist already (C19_adaptor_fresh, C19_copier_fresh; the equivalence holds for any "
-              "two such installers; an installer that reuses a node with the same equality function is refuted). Tied to the real code by an implementation-vs-implementation differential run: each generated scenario is "
+              "two such installers; an installer that reuses a node with the same equality function is refuted). HOW the test is left is a "
+              "reporter layer over any machine (which also says who raises a failure): crash flags of the two reporter objects, activeReporter_ "
+              "per support, reporter_ per actual call; the two interfaces differ only in the reporter they select a support with "
+              "(C19_layers_mirror) and any two layers that mirror one another give identical observations incl. the crash-hook count "
+              "(C19_equiv_obs_mirror_layers, C19_crash_equiv); invariant C19_reporter_uniform, characterisation C19_crash_iff_flag; a clear() "
+              "that resets activeReporter_, a mock_scope_c without reporter, a createActualCall with the standard reporter are refuted; the "
+              "reporter classes / MockSupport's uses of activeReporter_ are regenerated from the source (C19_reporter_source). Tied to the real code by an implementation-vs-implementation differential run: each generated scenario is "
               "executed through mock_c() from a C translation unit and through mock() from C++ inside a real test; verdict, failure "
-              "text, returned values (tag + payload), defaulting, output bytes and data-store reads must be identical; custom types take "
+              "text, how the test is left (number of runs of the crash hook installed with UtestShell::setCrashMethod, for crashOnFailure(n) set "
+              "through any support and failures raised by an actual call, by MockSupport itself at checkExpectations time or by a plain CHECK, "
+              "before and after clear()), returned values (tag + payload), defaulting, output bytes and data-store reads must be identical; custom types take "
               "their comparator / copier functions from a pool (2 equality x 3 to-string x 2 copiers) with sharing between type names, as C "
               "function pointers on one side and as C++ comparator / copier objects on the other.")
 LEVEL_NOTE = ("Trusted: Coq kernel, the translator-lite plugin tools/gen/C19.py (anchored regular expressions over the forwarders), extraction, "
               "the two harness interpreters (C and C++), generators. Modelled not verified: the C++ machinery behind both interfaces is a "
               "parameter of the equivalence theorem (its own behaviour is the subject of C08/C09); the model-vs-implementation comparison "
               "is the agreement of the two halves. Not covered: tracing, onObject (absent from the C interface), NULL names, "
-              "removeAllComparatorsAndCopiers while custom-type values are alive, crashOnFailure(non-zero), CPPUTEST_USE_LONG_LONG=0.")
+              "removeAllComparatorsAndCopiers while custom-type values are alive, a crash hook that does not return (the default abort), "
+              "setMockFailureStandardReporter / MockSupportPlugin (not expressible through the C interface), several tests in a row sharing one "
+              "mock state, CPPUTEST_USE_LONG_LONG=0.")
 TECHNIQUE = "Coq proof over wiring tables regenerated from source + C-vs-C++ differential execution of generated scenarios (same scenario through both interfaces)"
 READY = True
